@@ -3,7 +3,7 @@ sys.path.insert(0, os.path.dirname(os.path.abspath(__file__)))
 from common import *
 PROPERTY = 'C07'
 def h(nb):
-    return dict(src='c07_histogram.cc', defines=['NB=%d' % nb, 'OTEL_INTERNAL_LOG_LEVEL=0'], models=['libc.c', 'cxxrt.c', 'stdstring.c', 'sched.c', 'single_threaded.c'])
+    return dict(src='c07_histogram.cc', defines=['NB=%d' % nb, 'OTEL_INTERNAL_LOG_LEVEL=0'], models=['libc.c', 'cxxrt.c', 'stdstring.c', 'sched.c', 'single_threaded.c'], ir2c_flags=['--new-array-max', '136'], model_defines=['VERIF_NEW_ARRAY_MAX=136'])
 HARNESSES = {}
 QUERIES = []
 for nb in (0, 1, 2, 3):
@@ -12,10 +12,11 @@ for nb in (0, 1, 2, 3):
     U = max(nb + 3, 5)
     for e, sh in (('h_long_aggregate', '2 symbolic int64 values in [0,2^62)'), ('h_double_aggregate', '2 symbolic finite non-negative doubles'),
                   ('h_long_merge', '1+1 values merged vs 2 values in one histogram'), ('h_double_merge', '1+1 values merged vs 2 values in one histogram')):
-        QUERIES.append(dict(name='%s_nb%d' % (e[2:], nb), harness='c07_%d' % nb, entry=e, unwind=U, unwindset={'memmove': 40, 'memcpy': 40, 'memset': 40}, tier=tier, timeout=900, solvers=['cadical', 'minisat'],
+        mt = 'thorough' if 'merge' in e else tier      # Merge: 14 M variables, needs the 28 GB cap -> thorough tier
+        QUERIES.append(dict(name='%s_nb%d' % (e[2:], nb), harness='c07_%d' % nb, entry=e, unwind=U, mem_gb=28 if 'merge' in e else 12, unwindset={'memmove': 40, 'memcpy': 40, 'memset': 40, 'verif_mem': 140}, tier=mt, timeout=900 if 'merge' not in e else 2400, solvers=['cadical', 'minisat'] if 'merge' not in e else ['minisat'],
                             shape='%d symbolic strictly increasing finite boundaries; %s' % (nb, sh)))
-QUERIES.append(dict(name='default_boundaries', harness='c07_2', entry='h_default_boundaries', unwind=18, unwindset={'memmove': 140, 'memcpy': 140, 'memset': 140}, timeout=900,
+QUERIES.append(dict(name='default_boundaries', harness='c07_2', entry='h_default_boundaries', unwind=18, unwindset={'memmove': 140, 'memcpy': 140, 'memset': 140, 'verif_mem': 140}, timeout=900,
                     shape='15 default boundaries, one symbolic finite non-negative double'))
 BOUNDS = ['<= 3 view-configured boundaries (symbolic, strictly increasing, finite) or the 15 defaults', '2 values per aggregation (1+1 for Merge)', 'integer values < 2^62 (sum overflow outside)']
 OUTSIDE = ['NaN / infinite / negative measurements (API contract)', 'Diff', 'more than 2 values per interval', 'Base2 exponential histograms']
-ASSUMPTIONS = ['single executing thread (spin lock hooks sequential)', 'operator new never fails']
+ASSUMPTIONS = ['std::vector storage is a typed constant-size object of 136 bytes (larger requests are reported)', 'single executing thread (spin lock hooks sequential)', 'operator new never fails']
